@@ -223,19 +223,23 @@ def _deref(I, st, v):
 
 
 def summ_u128_mul_u128(I, st, args, fid):
-    """(U) u128_mul_u128(x, y) = (hi, lo) with hi*2^128 + lo = x*y"""
-    x, y = args
+    """(U) u128_mul_u128(x, y) = (hi, lo) with hi*2^128 + lo = x*y (delivered where the function delivers them: conv.mul_conv)"""
+    from . import conv
+    cv = conv.mul_conv(I.db, I.db.fns[fid])
+    x, y = cv.summ_inputs(I, st, args)
     W = pmul(st.norm(x.p), st.norm(y.p))
     T = I.tdiv_atom(st, W, pconst(2**128))
     hi = I.mk(st, 'u128', T)
     lo = I.mk(st, 'u128', padd(W, pscale(T, 2**128), -1), 0, 2**128 - 1)
-    return Agg('tuple', None, (hi, lo))
+    return cv.summ_finish(I, st, args, [hi, lo])
 
 
 def summ_u256_idiv_u128(I, st, args, fid):
-    """(U) u256_idiv_u128(&mut xh, &mut xl, y): (xh, xl) := floor((xh*2^128 + xl) / y), returns the remainder (< y); y > 0"""
-    rh, rl, y = args
-    xh, xl = _deref(I, st, rh), _deref(I, st, rl)
+    """(U) u256_idiv_u128 on (xh, xl, y), y > 0: quotient words (qh, ql) of floor((xh*2^128 + xl) / y) and the remainder (< y), read and
+    delivered by the function's own calling convention (conv.div_conv: `&mut` in/out words and a returned remainder on the pinned tree)"""
+    from . import conv
+    cv = conv.div_conv(I.db, I.db.fns[fid], 'DIV')
+    xh, xl, y = cv.summ_inputs(I, st, args)
     if not st.sign(y.p) <= POS:
         raise Stop('summary U: divisor of u256_idiv_u128 not known positive')
     W = st.norm(padd(pscale(xh.p, 2**128), xl.p))
@@ -244,10 +248,7 @@ def summ_u256_idiv_u128(I, st, args, fid):
     H = I.tdiv_atom(st, st.norm(Q), pconst(2**128))
     nh = I.mk(st, 'u128', H)
     nl = I.mk(st, 'u128', padd(Q, pscale(H, 2**128), -1), 0, 2**128 - 1)
-    for ref, val in ((rh, nh), (rl, nl)):
-        tf = I.frame_of(st, ref.frame)
-        tf.L[ref.local] = I.updated(st, tf, tf.L.get(ref.local), list(ref.proj), val)
-    return I.mk(st, 'u128', R, 0, None)
+    return cv.summ_finish(I, st, args, [nh, nl, I.mk(st, 'u128', R, 0, None)])
 
 
 def u_summaries(db=None):
